@@ -419,7 +419,7 @@ Qed.
 Lemma inrange_R x : inrange x -> inR x.
 Proof. unfold inR, inrange. lia. Qed.
 
-Section Answer.
+Section AnswerInv.
   Variables pos mv : Type.
   Variable moves : pos -> list mv.
   Variable legal : pos -> mv -> bool.
@@ -470,7 +470,9 @@ Section Answer.
     destruct (iter _ 1%nat s0 p []) as [s out]. reflexivity.
   Qed.
 
-  Hypothesis eval_i16 : forall p, -32768 < evalf p <= 32767.
+  Variable Inv : pos -> Prop.
+  Hypothesis Inv_make : forall p m, Inv p -> In m (moves p) -> legal p m = true -> Inv (make p m).
+  Hypothesis Inv_eval : forall p, Inv p -> -32768 < evalf p <= 32767.
 
   (* ---- frames ---- *)
   Definition fr (s s' : State) : Prop :=
@@ -552,30 +554,32 @@ Section Answer.
 
   (* ---- quiescence ---- *)
   Definition qok (rec : State -> pos -> Z -> Z -> Z * State) : Prop :=
-    forall s c a b, inR a -> inR b -> inR (fst (rec s c a b)) /\ fr s (snd (rec s c a b)).
+    forall s c a b, Inv c -> inR a -> inR b -> inR (fst (rec s c a b)) /\ fr s (snd (rec s c a b)).
 
-  Lemma qlp_ok rec p beta ply : qok rec -> inR beta ->
-    forall ms s alpha, inR alpha ->
+  Lemma qlp_ok rec p beta ply : qok rec -> Inv p -> inR beta ->
+    forall ms s alpha, (forall m, In m ms -> In m (moves p)) -> inR alpha ->
       inR (fst (qlp rec p beta ply ms s alpha)) /\ fr s (snd (qlp rec p beta ply ms s alpha)).
   Proof.
-    intros Hrec Hb. induction ms as [|m t IH]; intros s alpha Ha; cbn [qloop].
+    intros Hrec HI Hb. induction ms as [|m t IH]; intros s alpha Hin Ha; cbn [qloop].
     - split; [exact Ha | apply fr_refl].
-    - destruct (negb (legal p m)); [apply IH, Ha|]. cbv zeta.
+    - assert (Hin' : forall m', In m' t -> In m' (moves p)) by (intros m' H'; apply Hin; right; exact H').
+      destruct (legal p m) eqn:L; cbn [negb]; [|apply IH; assumption]. cbv zeta.
       destruct (Hrec (enter_node mv s (S ply) true) (make p m) (sneg beta) (sneg alpha)
+                     (Inv_make p m HI (Hin m (or_introl eq_refl)) L)
                      (inrange_R _ (sneg_R _ Hb)) (inrange_R _ (sneg_R _ Ha))) as [R1 F1].
       destruct (rec _ _ _ _) as [r s1]. cbn [fst snd] in R1, F1.
       change (fr s s1) in F1.
       destruct (sneg r >=? beta).
       + split; [exact Hb | exact F1].
-      + destruct (IH s1 (if sneg r >? alpha then sneg r else alpha)) as [R2 F2].
+      + destruct (IH s1 (if sneg r >? alpha then sneg r else alpha) Hin') as [R2 F2].
         { destruct (sneg r >? alpha); [apply inrange_R, sneg_R, R1 | exact Ha]. }
         split; [exact R2 | eapply fr_trans; eassumption].
   Qed.
 
-  Lemma qs_ok : forall f s p a b ply, inR a -> inR b ->
+  Lemma qs_ok : forall f s p a b ply, Inv p -> inR a -> inR b ->
     inR (fst (qs f s p a b ply)) /\ fr s (snd (qs f s p a b ply)).
   Proof.
-    induction f as [|f IH]; intros s p a b ply Ha Hb.
+    induction f as [|f IH]; intros s p a b ply HI Ha Hb.
     - cbn [quiescence fst snd]. split; [unfold inR; lia | apply fr_refl].
     - rewrite gqs_S. pose proof (abt_fr s ply) as FA.
       destruct (abt s ply) as [b0 s1]. cbn [snd] in FA.
@@ -583,49 +587,53 @@ Section Answer.
       destruct (evalf p >=? b); [split; [exact Hb | exact FA]|].
       match goal with |- context [qloop _ _ _ _ ?r0 ?p0 ?b0 ?ply0 ?ms0 ?s0 ?al0] =>
         destruct (qlp_ok r0 p0 b0 ply0) with (ms := ms0) (s := s0) (alpha := al0) as [R2 F2] end.
-      + intros s' c a' b' Ha' Hb'. unfold qrec. apply IH; assumption.
+      + intros s' c a' b' Hc Ha' Hb'. unfold qrec. apply IH; assumption.
+      + exact HI.
       + exact Hb.
-      + destruct (evalf p >? a); [|exact Ha]. pose proof (eval_i16 p). unfold inR. lia.
+      + intros m Hm. apply order_incl in Hm. apply filter_In in Hm. apply Hm.
+      + destruct (evalf p >? a); [|exact Ha]. pose proof (Inv_eval p HI). unfold inR. lia.
       + split; [exact R2 | eapply fr_trans; eassumption].
   Qed.
 
   (* ---- alpha_beta ---- *)
   Definition abok (rec : State -> pos -> Z -> Z -> State * Z) : Prop :=
-    forall s c a b, ttok s -> inR a -> inR b ->
+    forall s c a b, Inv c -> ttok s -> inR a -> inR b ->
       inR (snd (rec s c a b)) /\ Post s (fst (rec s c a b)).
 
-  Lemma cscore_ok rec s c alpha beta pvs : abok rec -> ttok s -> inR alpha -> inR beta ->
+  Lemma cscore_ok rec s c alpha beta pvs : abok rec -> Inv c -> ttok s -> inR alpha -> inR beta ->
     inrange (snd (cscore rec s c alpha beta pvs)) /\ Post s (fst (cscore rec s c alpha beta pvs)).
   Proof.
-    intros Hrec Hs Ha Hb. unfold child_score.
+    intros Hrec Hc Hs Ha Hb. unfold child_score.
     pose proof (sneg_R _ Ha) as Sa. pose proof (sneg_R _ Hb) as Sb.
     destruct pvs.
-    - destruct (Hrec s c (sneg alpha - 1) (sneg alpha) Hs) as [R1 P1];
+    - destruct (Hrec s c (sneg alpha - 1) (sneg alpha) Hc Hs) as [R1 P1];
         [unfold inR, inrange in *; lia | apply inrange_R, Sa |].
       destruct (rec s c (sneg alpha - 1) (sneg alpha)) as [s1 r1]. cbn [fst snd] in R1, P1.
       destruct ((alpha <? sneg r1) && (sneg r1 <? beta)).
-      + destruct (Hrec s1 c (sneg beta) (sneg alpha) (proj1 P1)) as [R2 P2];
+      + destruct (Hrec s1 c (sneg beta) (sneg alpha) Hc (proj1 P1)) as [R2 P2];
           [apply inrange_R, Sb | apply inrange_R, Sa |].
         destruct (rec s1 c (sneg beta) (sneg alpha)) as [s2 r2]. cbn [fst snd] in R2, P2 |- *.
         split; [apply sneg_R, R2 | eapply Post_trans; eassumption].
       + cbn [fst snd]. split; [apply sneg_R, R1 | exact P1].
-    - destruct (Hrec s c (sneg beta) (sneg alpha) Hs) as [R1 P1];
+    - destruct (Hrec s c (sneg beta) (sneg alpha) Hc Hs) as [R1 P1];
         [apply inrange_R, Sb | apply inrange_R, Sa |].
       destruct (rec s c (sneg beta) (sneg alpha)) as [s1 r1]. cbn [fst snd] in R1, P1 |- *.
       split; [apply sneg_R, R1 | exact P1].
   Qed.
 
-  Lemma ablp_ok rec p a0 beta depth ply : abok rec -> inR beta -> (ply <= 255)%nat ->
-    forall ms s alpha best pvs cnt, ttok s -> inR alpha ->
+  Lemma ablp_ok rec p a0 beta depth ply : abok rec -> Inv p -> inR beta -> (ply <= 255)%nat ->
+    forall ms s alpha best pvs cnt, (forall m, In m ms -> In m (moves p)) -> ttok s -> inR alpha ->
       inR (fst (ablp rec p a0 beta depth ply ms s alpha best pvs cnt))
       /\ Post s (snd (ablp rec p a0 beta depth ply ms s alpha best pvs cnt)).
   Proof.
-    intros Hrec Hb Hply. induction ms as [|m t IH]; intros s alpha best pvs cnt Hs Ha; cbn [abloop].
+    intros Hrec HI Hb Hply. induction ms as [|m t IH]; intros s alpha best pvs cnt Hin Hs Ha; cbn [abloop].
     - destruct cnt; cbn [fst snd].
       + split; [|apply Post_refl, Hs]. unfold inR, SCORE_MIN. destruct (in_check p); lia.
       + split; [exact Ha|]. apply Post_tins; [exact Hs | exact Ha].
-    - destruct (negb (legal p m)); [apply IH; assumption|]. cbv zeta.
-      destruct (cscore_ok rec (enter_node mv s (S ply) true) (make p m) alpha beta pvs Hrec Hs Ha Hb)
+    - assert (Hin' : forall m', In m' t -> In m' (moves p)) by (intros m' H'; apply Hin; right; exact H').
+      destruct (legal p m) eqn:L; cbn [negb]; [|apply IH; assumption]. cbv zeta.
+      destruct (cscore_ok rec (enter_node mv s (S ply) true) (make p m) alpha beta pvs Hrec
+                          (Inv_make p m HI (Hin m (or_introl eq_refl)) L) Hs Ha Hb)
         as [R1 P1].
       destruct (cscore rec _ _ _ _ _) as [s1 sc]. cbn [fst snd] in R1, P1.
       change (Post s s1) in P1.
@@ -638,16 +646,16 @@ Section Answer.
         eapply Post_fr; [|apply skill_fr].
         eapply Post_trans; [exact P2|]. apply Post_tins; [exact (proj1 P2) | apply inrange_R, R1].
       + destruct (sc >? alpha).
-        * destruct (IH s2 sc m true (S cnt) (proj1 P2) (inrange_R _ R1)) as [R3 P3].
+        * destruct (IH s2 sc m true (S cnt) Hin' (proj1 P2) (inrange_R _ R1)) as [R3 P3].
           split; [exact R3 | eapply Post_trans; eassumption].
-        * destruct (IH s2 alpha best pvs (S cnt) (proj1 P2) Ha) as [R3 P3].
+        * destruct (IH s2 alpha best pvs (S cnt) Hin' (proj1 P2) Ha) as [R3 P3].
           split; [exact R3 | eapply Post_trans; eassumption].
   Qed.
 
-  Lemma ab_ok : forall f s p a b d ply, ttok s -> inR a -> inR b -> (ply <= 255)%nat ->
+  Lemma ab_ok : forall f s p a b d ply, Inv p -> ttok s -> inR a -> inR b -> (ply <= 255)%nat ->
     inR (fst (ab f s p a b d ply)) /\ Post s (snd (ab f s p a b d ply)).
   Proof.
-    induction f as [|f IH]; intros s p a b d ply Hs Ha Hb Hply.
+    induction f as [|f IH]; intros s p a b d ply HI Hs Ha Hb Hply.
     - cbn [alpha_beta fst snd]. split; [unfold inR; lia | apply Post_refl, Hs].
     - rewrite gab_S. pose proof (abt_fr s ply) as FA.
       destruct (abt s ply) as [b0 s1] eqn:A. cbn [snd] in FA.
@@ -669,17 +677,19 @@ Section Answer.
       + cbn [fst snd]. split; [exact PR | exact P2].
       + destruct PR as [Ha0 Hb0].
         destruct (if in_check p then S d else d) as [|dm1].
-        * destruct (qs_ok f s2 p alpha0 beta ply Ha0 Hb0) as [R3 F3].
+        * destruct (qs_ok f s2 p alpha0 beta ply HI Ha0 Hb0) as [R3 F3].
           split; [exact R3 | eapply Post_fr; eassumption].
         * match goal with |- context [abloop _ _ _ _ _ _ _ _ _ _ _ _ ?r0 ?p0 ?a00 ?b0 ?d0 ?ply0 ?ms0 ?s0 ?al0 ?bst ?pv ?c0] =>
             destruct (ablp_ok r0 p0 a00 b0 d0 ply0) with (ms := ms0) (s := s0) (alpha := al0)
                                                       (best := bst) (pvs := pv) (cnt := c0) as [R3 P3] end.
-          -- intros s' c a' b' Hs' Ha' Hb'. unfold abrec.
-             pose proof (IH s' c a' b' dm1 (S ply) Hs' Ha' Hb' ltac:(lia)) as H.
+          -- intros s' c a' b' Hc Hs' Ha' Hb'. unfold abrec.
+             pose proof (IH s' c a' b' dm1 (S ply) Hc Hs' Ha' Hb' ltac:(lia)) as H.
              destruct (ab f s' c a' b' dm1 (S ply)) as [r s'']. cbn [fst snd] in H |- *.
              split; apply H.
+          -- exact HI.
           -- exact Hb0.
           -- exact Hply.
+          -- intros m Hm. apply order_incl in Hm. exact Hm.
           -- exact (proj1 P2).
           -- exact Ha0.
           -- split; [exact R3 | eapply Post_trans; eassumption].
@@ -687,8 +697,8 @@ Section Answer.
 
   Lemma ab_rec_ok f dm1 : abok (ab_rec f dm1 0).
   Proof.
-    intros s c a b Hs Ha Hb. unfold abrec.
-    pose proof (ab_ok f s c a b dm1 1 Hs Ha Hb ltac:(lia)) as H.
+    intros s c a b Hc Hs Ha Hb. unfold abrec.
+    pose proof (ab_ok f s c a b dm1 1 Hc Hs Ha Hb ltac:(lia)) as H.
     destruct (ab f s c a b dm1 1) as [r s']. cbn [fst snd] in H |- *. split; apply H.
   Qed.
 
@@ -702,12 +712,12 @@ Section Answer.
     intros [A [B C]] [A' [B' C']]. split; [exact A'|]. rewrite B', C'. split; assumption.
   Qed.
 
-  Lemma rootlp_ok rec p depth : abok rec ->
+  Lemma rootlp_ok rec p depth : abok rec -> Inv p ->
     forall ms s alpha best pvs cnt, (forall m, In m ms -> In m (moves p)) -> Good p s -> inR alpha ->
       ((alpha = -32768 /\ cnt = 0%nat) \/ (In best (moves p) /\ legal p best = true)) ->
       Good p (rootlp rec p depth ms s alpha best pvs cnt).
   Proof.
-    intros Hrec. induction ms as [|m t IH]; intros s alpha best pvs cnt Hin Hs Ha HI; cbn [rootloop].
+    intros Hrec HIp. induction ms as [|m t IH]; intros s alpha best pvs cnt Hin Hs Ha HI; cbn [rootloop].
     - destruct cnt; [exact Hs|].
       destruct HI as [[_ H0]|[Hb Hl]]; [discriminate|].
       pose proof (abt_fr s 0) as FA.
@@ -722,7 +732,8 @@ Section Answer.
       destruct (legal p m) eqn:L; cbn [negb]; [|apply IH; assumption].
       cbv zeta.
       assert (Hm : In m (moves p)) by (apply Hin; left; reflexivity).
-      destruct (cscore_ok rec (enter_node mv s 1 false) (make p m) alpha SCORE_MAX pvs Hrec (proj1 Hs) Ha)
+      destruct (cscore_ok rec (enter_node mv s 1 false) (make p m) alpha SCORE_MAX pvs Hrec
+                          (Inv_make p m HIp Hm L) (proj1 Hs) Ha)
         as [R1 P1]; [unfold inR, SCORE_MAX; lia|].
       destruct (cscore rec _ _ _ _ _) as [s1 sc]. cbn [fst snd] in R1, P1.
       change (Post s s1) in P1.
@@ -746,11 +757,12 @@ Section Answer.
           destruct HI as [[H0 _]|HR]; [unfold inrange in R1; lia | right; exact HR].
   Qed.
 
-  Lemma start_ok s p d : Good p s -> Good p (start s p d).
+  Lemma start_ok s p d : Inv p -> Good p s -> Good p (start s p d).
   Proof.
-    intros Hs. rewrite gstart_eq. destruct (moves p) as [|m0 t] eqn:Em; [exact Hs|].
+    intros HI Hs. rewrite gstart_eq. destruct (moves p) as [|m0 t] eqn:Em; [exact Hs|].
     apply rootlp_ok.
     - apply ab_rec_ok.
+    - exact HI.
     - intros m Hm. rewrite Em. eapply order_incl. exact Hm.
     - exact Hs.
     - unfold inR, SCORE_MIN; lia.
@@ -763,11 +775,11 @@ Section Answer.
     destruct (sc <=? _); [reflexivity|]. destruct (sc >=? _); reflexivity.
   Qed.
 
-  Lemma iter_ok p : forall k d s out, Good p s -> (forall o, In o out -> is_bm o = false) ->
+  Lemma iter_ok p : Inv p -> forall k d s out, Good p s -> (forall o, In o out -> is_bm o = false) ->
     Good p (fst (iter k d s p out)) /\ (forall o, In o (snd (iter k d s p out)) -> is_bm o = false).
   Proof.
-    induction k as [|k IH]; intros d s out Hs Ho; cbn [iter_loop]; [split; assumption|].
-    pose proof (start_ok s p d Hs) as G1.
+    intros HI. induction k as [|k IH]; intros d s out Hs Ho; cbn [iter_loop]; [split; assumption|].
+    pose proof (start_ok s p d HI Hs) as G1.
     pose proof (abt_fr (start s p d) 0) as FA.
     destruct (abt (start s p d) 0) as [b0 s2]. cbn [snd] in FA.
     pose proof (Good_Post p _ _ G1 (fr_Post _ _ (proj1 G1) FA)) as G2.
@@ -776,8 +788,8 @@ Section Answer.
     intros o [<-|H]; [apply info_not_bm | apply Ho, H].
   Qed.
 
-  Lemma search_answers : forall (s0 : State) (p : pos) (D : option nat),
-    best_move mv s0 = None -> best_score mv s0 = None ->
+  Lemma search_answers_inv : forall (s0 : State) (p : pos) (D : option nat),
+    Inv p -> best_move mv s0 = None -> best_score mv s0 = None ->
     (forall k e, PositiveMap.find k (tt mv s0) = Some e -> -32768 < e_score mv e <= 32767) ->
     (exists m, In m (moves p) /\ legal p m = true) ->
     exists infos m,
@@ -785,13 +797,13 @@ Section Answer.
       /\ (forall o, In o infos -> is_bm o = false)
       /\ In m (moves p) /\ legal p m = true.
   Proof.
-    intros s0 p D Hbm Hbs Htt [m0 [Hm0 Hl0]]. unfold search.
+    intros s0 p D HI Hbm Hbs Htt [m0 [Hm0 Hl0]]. unfold search.
     assert (G0 : Good p s0).
     { split; [|split].
       - intros k e F. specialize (Htt k e F). unfold inR. lia.
       - rewrite Hbs. discriminate.
       - rewrite Hbm. discriminate. }
-    destruct (iter_ok p (match D with Some d => d | None => 255%nat end) 1%nat s0 [] G0) as [G1 O1];
+    destruct (iter_ok p HI (match D with Some d => d | None => 255%nat end) 1%nat s0 [] G0) as [G1 O1];
       [intros o []|].
     destruct (iter _ 1%nat s0 p []) as [s out]. cbn [fst snd] in G1, O1 |- *.
     exists (rev out), (announced pos mv moves legal default_mv s p).
@@ -803,5 +815,43 @@ Section Answer.
         destruct (filter (legal p) (moves p)) as [|m1 t] eqn:Ef; [contradiction|].
         assert (H1 : In m1 (filter (legal p) (moves p))) by (rewrite Ef; left; reflexivity).
         apply filter_In in H1. exact H1.
+  Qed.
+End AnswerInv.
+
+(* the global-bound version: the instance Inv := fun _ => True *)
+Section Answer.
+  Variables pos mv : Type.
+  Variable moves : pos -> list mv.
+  Variable legal : pos -> mv -> bool.
+  Variable make : pos -> mv -> pos.
+  Variable in_check : pos -> bool.
+  Variable evalf : pos -> Z.
+  Variable is_cap is_promo : mv -> bool.
+  Variable cap_score : mv -> N.
+  Variable mv_eqb : mv -> mv -> bool.
+  Variable key : pos -> N.
+  Variable halfmove : pos -> N.
+  Variable repeated : pos -> bool.
+  Variable default_mv : mv.
+  Variable lim : Limits.
+  Variable clock : nat -> N.
+  Variable ext_stop : nat -> bool.
+  Variable tt_on : bool.
+  Hypothesis eval_i16 : forall p, -32768 < evalf p <= 32767.
+
+  Lemma search_answers : forall (s0 : St mv) (p : pos) (D : option nat),
+    best_move mv s0 = None -> best_score mv s0 = None ->
+    (forall k e, PositiveMap.find k (tt mv s0) = Some e -> -32768 < e_score mv e <= 32767) ->
+    (exists m, In m (moves p) /\ legal p m = true) ->
+    exists infos m,
+      snd (search pos mv moves legal make in_check evalf is_cap is_promo cap_score mv_eqb key
+                  halfmove repeated default_mv lim clock ext_stop tt_on s0 p D) = infos ++ [Bestmove mv m]
+      /\ (forall o, In o infos -> match o with Bestmove _ _ => true | _ => false end = false)
+      /\ In m (moves p) /\ legal p m = true.
+  Proof.
+    intros s0 p D.
+    exact (search_answers_inv pos mv moves legal make in_check evalf is_cap is_promo cap_score mv_eqb key
+             halfmove repeated default_mv lim clock ext_stop tt_on (fun _ => True)
+             (fun _ _ _ _ _ => I) (fun q _ => eval_i16 q) s0 p D I).
   Qed.
 End Answer.
